@@ -453,6 +453,22 @@ def runLive06 (kv : List (String × String)) : IO Res := do
       let (rs, rl) := capRegion valid len sp (maxStackLen lc.cfg.limit extra i crashThread)
       if (rs, rl) != (valid, len) then tags := (if sp < valid then "live.guard.shortened" else "thread.shortened") :: tags
       if i ≥ 20 then tags := "thread.late" :: tags
+      -- with stack skipping the (shortened) copy is scanned for references to the principal mapping first: a
+      -- stack that does not qualify is left out
+      if let some addr := lc.cfg.principal then
+        let principal := (findMappingNoBias ms addr).map (fun m => (m.sysStart, m.sysEnd))
+        let ip := if crashThread then greg lc.cfg.gregs REG_RIP else exp.rip
+        let raw : List (Option UInt8) := (List.range rl).map (fun k => memAt lc.mem (rs + k))
+        if raw.any Option.isNone then
+          tags := "skip.uncovered" :: tags
+          continue
+        let want := includeStack true principal ip (raw.map (·.getD 0)) (sp - rs)
+        if !want then
+          if t.stackSize != 0 then
+            return .mismatch s!"thread #{i} ({t.tid}): a stack was captured although neither ip nor the captured words reference the principal mapping" tags
+          tags := "skip.excluded" :: tags
+          continue
+        tags := "skip.included" :: tags
       -- the property itself, on the implementation's record
       if sp < valid then
         -- the stack pointer is in a guard page or unmapped: the region begins at the first plausible stack
@@ -510,7 +526,13 @@ def runLive20 (kv : List (String × String)) : IO Res := do
     -- records and contexts of excluded stacks are still present
     if t.ctxSize != OFF.total then return .propfail s!"thread {t.tid}: context missing" tags
     match getStackInfo ms 4096 sp with
-    | .ok (valid, len) =>
+    | .ok (valid0, len0) =>
+      -- a size limit shortens the stacks of late threads before they are scanned
+      let n := lc.threads.length
+      let extra := extraLimit lc.cfg.limit n (32 + 12 * Src.numWriters + 4 + 48 * n)
+      let i := (lc.threads.findIdx? (fun x => x.tid == t.tid)).getD 0
+      let (valid, len) := capRegion valid0 len0 sp (maxStackLen lc.cfg.limit extra i crashThread)
+      if (valid, len) != (valid0, len0) then tags := "stack.shortened" :: tags
       -- the stack as the target holds it (snapshot), to evaluate the rule independently
       let stackBytes : Bytes := (List.range len).map (fun k => (memAt lc.mem (valid + k)).getD 0)
       let covered := (memAt lc.mem valid).isSome && (memAt lc.mem (valid + len - 1)).isSome
